@@ -12,7 +12,7 @@ LEVEL = "fault_enumeration"
 RULE = (
     "for every base blob (quick: SHA512/nonce and SHA256/P-256 in both layouts + one 300-byte plaintext; thorough: 4 hashes x {nonce,DH,P256,P384} x 2 layouts + the long one), exhaustively: "
     "every single-bit flip, every truncation length, deletion of each byte, insertion of 00/FF at each offset, every TLV-header byte and key-identifier header byte replaced by each of "
-    "{00,01,7F,80,81,FF}, blobs whose ciphertext is exactly 64 KiB, 1 MiB (thorough: also 2 MiB, 3 MiB, 16 MiB; sparse flips and truncations) (64 KiB: every bit of its headers and of the first/last bytes of the ciphertext, two bits of every 1021st byte, truncations around 4 KiB/64 KiB) through the sync and the async API, and all pairs of flips among {bit 0 of every byte whose flip was harmless} u {first bit of every field}. Forgeries that need no secret: key position overwritten with one of 11 positions x 2 L0, wrapped CEK re-wrapped under a KEK derived from one of 7 publicly known byte strings (empty, zeros, the root key id, the key nonce, ...) used as L2 key / L1 key / L0 seed / root key, content re-encrypted (IV kept). The same forgeries against caches with a history (seed keys fetched from the DC; then a protect served from the cache; root key + a protect at (31,31)). Each mutated blob is decrypted by the real unprotect API with an offline "
+    "{00,01,7F,80,81,FF}, blobs whose ciphertext is exactly 64 KiB, 1 MiB (thorough: also 2 MiB, 3 MiB, 16 MiB; sparse flips and truncations) (64 KiB: every bit of its headers and of the first/last bytes of the ciphertext, two bits of every 1021st byte, truncations around 4 KiB/64 KiB) through the sync and the async API, and all pairs of flips among {bit 0 of every byte whose flip was harmless} u {first bit of every field}. Algorithm substitution: the content-encryption algorithm identifier replaced by 17 other ciphers / modes x 5 parameter forms, for the IV forms combined with every value of the last / 17th-from-last ciphertext octet. Forgeries that need no secret: key position overwritten with one of 11 positions x 2 L0, wrapped CEK re-wrapped under a KEK derived from one of 7 publicly known byte strings (empty, zeros, the root key id, the key nonce, ...) used as L2 key / L1 key / L0 seed / root key, content re-encrypted (IV kept). The same forgeries against caches with a history (seed keys fetched from the DC; then a protect served from the cache; root key + a protect at (31,31)). Each mutated blob is decrypted by the real unprotect API with an offline "
     "cache holding the right root key (network seams raise). Blobs rejected by the authentication checks are decrypted a second time in the same process (a retry must not succeed). Oracle: original plaintext | any exception | needs-network; different bytes is the violation. Distinct by (blob, mutation); non-trivial = the "
     "mutated bytes differ from the original."
 )
@@ -71,6 +71,8 @@ def shards(tier: str, seed: int):
             out.append(["simple", b.bid, k])
         out.append(["pairs", b.bid])
     for b in bm.bases(seed, tier):
+        if "/long" not in b.bid and (tier == "thorough" or "/nonce/" in b.bid):
+            out.append(["algsub", b.bid])
         if "/nonce/" in b.bid:
             out.append(["forge", b.bid])
             out.append(["forge-hist", b.bid])
@@ -165,30 +167,97 @@ def history_cache(base: bm.Base, kind: str):
     from env import refdc, secctx, transport
     from ref import gkdi
 
-    pos = bm.POS if kind != "root+protect@31" else (bm.POS[0], 31, 31)
+    pos = {"root+protect@31": (bm.POS[0], 31, 31), "root+l0flips+protect": (bm.POS[0], 20, 3)}.get(kind, bm.POS)
     ft = (pos[0] * 1024 + pos[1] * 32 + pos[2]) * gkdi.B + 777
     kw = dict(server="dc", username="u", password="p", auth_protocol="ntlm")
-    if kind == "root+protect@31":
+    if kind.startswith("root+"):
         cache = seams.make_cache(base.rk)
     else:
         cache = dpapi_ng.KeyCache()
+    if kind == "root+l0flips+protect":
+        # the long-lived cache has first been shown the blob with every single bit of its L0 field flipped (32 other L0 values, all rejected)
+        from ref import cms as _cms, gkdi as _g
+
+        b_ = _cms.decode(base.blob)
+        kid_ = _g.unpack_keyid(b_.keyid)
+        for bit in range(31, -1, -1):
+            try:
+                dpapi_ng.ncrypt_unprotect_secret(_cms.encode(b_._replace(keyid=_g.pack_keyid(kid_._replace(l0=kid_.l0 ^ (1 << bit))))), cache=cache)
+            except Exception:  # noqa: BLE001
+                pass
     dc = refdc.DC([base.rk], now=pos)
     with seams.clock(ft), transport.network(dc), secctx.scripted_client(lambda u, p, **k: secctx.ScriptedContext([b"C1"], 16)):
-        if kind != "root+protect@31":
+        if not kind.startswith("root+"):
             assert bytes(dpapi_ng.ncrypt_unprotect_secret(base.blob, cache=cache, **kw)) == base.plaintext
         if kind != "dc":
             dpapi_ng.ncrypt_protect_secret(b"later", bm.SID, root_key_identifier=base.rk.rkid, cache=cache, **kw)
     return cache
 
 
+AES_OIDS = {f"2.16.840.1.101.3.4.1.{n}": name for n, name in [(1, "ecb128"), (2, "cbc128"), (3, "ofb128"), (4, "cfb128"), (5, "wrap128"), (6, "gcm128"), (7, "ccm128"), (21, "ecb192"), (22, "cbc192"), (26, "gcm192"),
+                                                              (41, "ecb256"), (42, "cbc256"), (43, "ofb256"), (44, "cfb256"), (45, "wrap256"), (47, "ccm256")]}
+AES_OIDS["1.2.840.113549.3.7"] = "des-ede3-cbc"
+
+
+def aligned_base(base: bm.Base, ptlen: int) -> bm.Base:
+    """the same key, layout and mode as `base` but a plaintext of ptlen octets (ciphertext + tag a whole number of cipher blocks for 16, 32)"""
+    from ref import cms
+
+    d = seams.Drbg(("C04algsub", base.bid, ptlen))
+    pt = d.bytes(ptlen)
+    blob = cms.ref_encrypt(base.rk, bm.SID, pt, bm.POS, cek=d.bytes(32), gcm_nonce_=d.bytes(12), key_nonce=d.bytes(32), domain="domain.test", forest="forest.test", in_envelope="/env" in base.bid)
+    return bm.Base(base.bid, base.rk, blob, pt)
+
+
+def algsub_mutations(blob: bytes):
+    """the (unauthenticated) content-encryption AlgorithmIdentifier replaced by another cipher / mode, its parameters by what that mode takes,
+    and one ciphertext octet substituted with every value (what a padding check would need)"""
+    from ref import cms, der
+
+    b = cms.decode(blob)
+    n = len(b.enc_content)
+    forms = {"gcm-kept": b.content_params, "iv16": der.enc_octets(bytes(range(16))), "iv8": der.enc_octets(bytes(8)), "null": b"\x05\x00", "absent": None}
+    for oid, name in AES_OIDS.items():
+        for fname, params in forms.items():
+            yield ["algsub", name, fname, None, None], cms.encode(b._replace(content_alg=oid, content_params=params))
+            if fname in ("iv16", "gcm-kept") and n:
+                for where in (n - 1, n - 17):
+                    if where < 0:
+                        continue
+                    for v in range(256):
+                        if v == b.enc_content[where]:
+                            continue
+                        ct = bytearray(b.enc_content)
+                        ct[where] = v
+                        yield ["algsub", name, fname, where - n, v], cms.encode(b._replace(content_alg=oid, content_params=params, enc_content=bytes(ct)))
+
+
 def run_shard(shard, tier, seed, acc) -> None:
     worker_init()
     _hist_cache["cache"] = None
+    if shard[0] == "algsub":
+        base0 = bm.base_by_id(seed, shard[1])
+        n = 0
+        for ptlen in ((11, 32) if tier == "quick" else (11, 16, 32, 48)):
+            base = aligned_base(base0, ptlen)
+            st, v = unprotect(base, base.blob)
+            if st != "ok" or bytes(v) != base.plaintext:
+                acc.violate("algsub.base-does-not-decrypt", ["algsub-base", base.bid, ptlen], {"outcome": st})
+                continue
+            for label, data in algsub_mutations(base.blob):
+                label = label + [ptlen]
+                oc = judge(acc, base, label, data, [], "async" if n % 7 == 3 else "sync")
+                acc.outcome("algsub:" + oc.split(":")[0])
+                n += 1
+        acc.ev(n)
+        acc.nt_counted(n)
+        acc.sample({"blob": base.bid, "content-encryption algorithm replaced by": sorted(AES_OIDS.values()), "mutations": n})
+        return
     if shard[0] == "forge-hist":
         base = bm.base_by_id(seed, shard[1])
         n = 0
         try:
-            for kind in ("dc", "dc+protect", "root+protect@31"):
+            for kind in ("dc", "dc+protect", "root+protect@31", "root+l0flips+protect"):
                 _hist_cache["cache"] = None
                 _hist_cache["cache"] = history_cache(base, kind)
                 st, v = unprotect(base, base.blob)
@@ -304,6 +373,12 @@ def replay(case, seed, acc) -> None:
         judge(acc, base, label, bm.apply_simple(base.blob, label), [], api)
         return
     base = bm.base_by_id(seed, bid)
+    if label[0] == "algsub":
+        base = aligned_base(base, label[-1])
+        for lab, data in algsub_mutations(base.blob):
+            if lab + [label[-1]] == list(label):
+                judge(acc, base, label, data, [], api)
+        return
     if label[0] == "forge":
         try:
             if len(label) > 5:
